@@ -20,7 +20,7 @@ CHECKS = {
         engine="E1 sched",
         category="model_checking",
         technique="explicit-state model checking of the real handlers: breadth-first search over database images, every delivery order x bounded lost-ack faults, canonical-state deduplication",
-        text="Exhaustive within bounds: every delivery order of pending messages of every listed workload, with up to 1 (quick) / 2 (thorough) deliveries whose worker dies right after the claim, before the processed-mark or before the ack and is redelivered after lock expiry at any later point; oracle = admissible outcome set (and, where every task plainly succeeds, SUCCEEDED - the in-order run is not trusted as its own reference) + 'no execution after a recorded result' + legal durable transitions. Each transition is a real process_one() call, so trace validation against the implementation is total.",
+        text="Exhaustive within bounds: every delivery order of pending messages of every listed workload, with up to 1 (quick) / 2 (thorough) deliveries whose worker dies right after the claim, before the processed-mark or before the ack and is redelivered after lock expiry at any later point; oracle = admissible outcome set (and, where every task plainly succeeds, SUCCEEDED - the in-order run is not trusted as its own reference); on loop-free confluent workloads every task execution sees a context the in-order run shows, with the completion order of parallel branches (stage end times from the harness's logical millisecond clock) made part of the state identity in three dedicated jobs + 'no execution after a recorded result' + legal durable transitions. Each transition is a real process_one() call, so trace validation against the implementation is total.",
         design_ref="5 (C02), 3 (E1)",
         note=E1_NOTE,
     ),
@@ -36,7 +36,7 @@ CHECKS = {
         engine="E1 sched",
         category="model_checking",
         technique="explicit-state model checking of the real handlers over every DAG shape up to 4 stages: all delivery orders x injected early/duplicate StartStage, join oracle evaluated on durable audit rows",
-        text="For every DAG on <=4 stages up to isomorphism (all succeed / each single stage halting), every join type workload, loops with one and two jump targets, and six workloads run next to an older bystander workflow that uses the same ref_ids with other dependencies: all delivery orders with 1 (quick) / 2 (thorough) spurious StartStage messages for any stage at any point (+1 lost ack in thorough). At every durable NOT_STARTED->RUNNING of a stage the published join semantics is evaluated on the pre-state's upstream rows.",
+        text="For every DAG on <=4 stages up to isomorphism (all succeed / each single stage halting), every join type workload, loops with one and two jump targets, and six workloads run next to an older bystander workflow that uses the same ref_ids with other dependencies, OR-splits with a multi-stage activated branch / an un-evaluable condition (the OR-join oracle derives the deselected branches from the split's own conditions and durable outputs, not from the engine's bookkeeping), loops under one worker death: all delivery orders with 1 (quick) / 2 (thorough) spurious StartStage messages for any stage at any point (+1 lost ack in thorough). At every durable NOT_STARTED->RUNNING of a stage the published join semantics is evaluated on the pre-state's upstream rows.",
         design_ref="5 (C03)",
         note=E1_NOTE,
     ),
@@ -44,7 +44,7 @@ CHECKS = {
         engine="E1 sched",
         category="model_checking",
         technique="explicit-state model checking of the real handlers; invariant evaluated in every quiescent state (empty queue) reached under every delivery order x bounded faults",
-        text="Every quiescent state reachable under all delivery orders (+1 worker death on the small workloads, + an injected cancel, + operator pause/resume; + ONE transient database error before any statement of any delivery of the in-order run of 12 workloads) of the workload family incl. failing branches next to running ones, early-firing joins, synthetic before/after stages, jump loops, a builder that raises while planning: workflow final or explicitly waiting, outcome function consistent, nothing running under a finished workflow, DLQ empty. E3: two workflows of one pipeline config with max_concurrent_executions=1, StartWorkflow(W2) racing CompleteWorkflow(W1)+StartWaitingWorkflows under <=2/<=3 preemptions: no workflow left BUFFERED with a free slot.",
+        text="Every quiescent state reachable under all delivery orders (+1 worker death on the small workloads, + an injected cancel, + operator pause/resume; + ONE transient database error before any statement of any delivery of the in-order run of 12 workloads) of the workload family incl. failing branches next to running ones, early-firing joins, synthetic before/after stages, jump loops (also from a non-last task), a builder that raises while planning, after-stages declared in the definition, two parallel before-stages (failing / with two parent tasks), a cancel region cancelled at any moment, a milestone-gated stage: workflow final or explicitly waiting, outcome function consistent, nothing running under a finished workflow, no dead-lettered message of an unfinished workflow. E3: two workflows of one pipeline config with max_concurrent_executions=1, StartWorkflow(W2) racing CompleteWorkflow(W1)+StartWaitingWorkflows under <=2/<=3 preemptions: no workflow left BUFFERED with a free slot.",
         design_ref="5 (C05)",
         note=E1_NOTE,
     ),
@@ -68,7 +68,7 @@ CHECKS = {
         engine="E1 sched + E2 crash + E3 ilv",
         category="model_checking",
         technique="explicit-state model checking of the real handlers with the real recovery sweep injected before every delivery of every order; plus crash-point enumeration comparing one vs. two sweeps",
-        text="A recovery sweep (run_recovery) injected in every reachable state of every delivery order, once or twice (also twice in a row), of every workload (incl. task-less gate stages and two-task stages with builder-planned before-stages): outcome must stay within what is reachable without a sweep and no task may execute more often per arming than without a sweep. E2: at every crash image of 6 workloads, restart + one sweep vs. restart + two sweeps give the same outcome and execution counts. E3: a real run_recovery() thread racing one handler (RunTask, StartTask, CompleteTask, StartStage, CompleteStage, polling RunTask, ContinueParentStage) at statement level under <=2 / <=3 preemptions.",
+        text="A recovery sweep (run_recovery) injected in every reachable state of every delivery order, once or twice (also twice in a row), of every workload (incl. task-less gate stages, two-task stages with builder-planned before-stages, jumps from a non-last task): outcome must stay within what is reachable without a sweep and no task may execute more often per arming than without a sweep. E2: at every crash image of 6 workloads, restart + one sweep vs. restart + two sweeps give the same outcome and execution counts. E3: a real run_recovery() thread racing one handler (RunTask, StartTask, CompleteTask, StartStage, CompleteStage, polling RunTask, ContinueParentStage) at statement level under <=2 / <=3 preemptions.",
         design_ref="5 (C10)",
         note=E1_NOTE + "",
     ),
@@ -84,7 +84,7 @@ CHECKS = {
         engine="E2 crash + statement fault injector",
         category="fault_enumeration",
         technique="exhaustive crash-point enumeration (image after every commit) plus exhaustive statement-level fault injection through the real connection's execute(), event store in the same database",
-        text="Every commit image of 13 workload runs, and an exception (sqlite 'database is locked' / RuntimeError) raised before every single statement - and a failing COMMIT at every commit - of every RunTask/CompleteTask/CompleteStage step (every step in thorough); the instant just before every commit is a crash point for the subscriber log too: no completion event without its committed completion, no regularly committed completion without its event, the synchronous subscriber never saw an event that is not durable, sequences unique and increasing, no transaction left open.",
+        text="Every commit image of 13 workload runs, and an exception (sqlite 'database is locked' / RuntimeError) raised before every single statement - and a failing COMMIT at every commit - of every RunTask/CompleteTask/CompleteStage step (every step in thorough); the instant just before every commit is a crash point for the subscriber log too; first-of / quorum joins included; three runs with a second, REACTING subscriber that records an event of its own on every stage completion: no completion event without its committed completion, no regularly committed completion without its event, the synchronous subscriber never saw an event that is not durable, sequences unique and increasing, no transaction left open.",
         design_ref="5 (C13)",
         note="Trusted: SQLite atomic commit, CPython; one fault per run; FIFO (+LIFO) baseline.",
     ),
@@ -92,7 +92,7 @@ CHECKS = {
         engine="E1 sched",
         category="model_checking",
         technique="explicit-state model checking of the real handlers over every number of consecutive transient failures 0..max_attempts+2, all delivery orders",
-        text="k = 0..12 consecutive TransientErrors x {with, without context_update} x task position 1-3 of 3 with a parallel sibling stage x all delivery orders (+ lost ack / early delivery / sweep in thorough), plus polling tasks and a worker death at any point of any delivery of a k=10 run: attempt n sees the progress saved by attempt n-1, executions <= max_attempts (10), beyond the limit task/stage/workflow end TERMINAL, below it they succeed.",
+        text="k = 0..12 consecutive TransientErrors x {with, without context_update} x task position 1-3 of 3 with a parallel sibling stage x all delivery orders (+ lost ack / early delivery / sweep in thorough), plus polling tasks, a worker death at any point of any delivery of a k=10 run, and (E2) every commit image of the polling / retrying deliveries (the saved progress is durable as soon as the delivery carries its processed record, and the next attempt after restart sees it): attempt n sees the progress saved by attempt n-1, executions <= max_attempts (10), beyond the limit task/stage/workflow end TERMINAL, below it they succeed.",
         design_ref="5 (C14)",
         note=E1_NOTE + " max_stage_wait_retries is 20 here so the engine's unrelated 1-hour give-up does not race the task's backoff.",
     ),
@@ -108,7 +108,7 @@ CHECKS = {
         engine="E1 sched + E5 enum",
         category="model_checking",
         technique="explicit-state model checking of the real handlers: every task execution of every delivery order compared with an independent reference merge of the ancestors' durable outputs; exhaustive permutation enumeration for reducers",
-        text="Every DAG shape up to 4 stages + chains/diamonds/fans/loops with overlapping scalar and list keys and own-context overrides, all delivery orders: what each task execution saw equals the reference merge (nearest path-ordered ancestor wins, own value wins, lists accumulate, no non-ancestor key) of an independent model of what every stage published in its current arming (built from the execution ledger, reset on re-arm; jump tasks that publish extra keys only in abandoned iterations; mixed-type own values); the durable outputs of every finished stage equal that model. Reducers: every permutation of 2-3 (4 in thorough) branch outputs over an alphabet with duplicates, falsy and negative values, missing keys, scalars / lists, and end to end through a 3-branch fan under every completion order.",
+        text="Every DAG shape up to 4 stages + chains/diamonds/fans/loops with overlapping scalar and list keys and own-context overrides, all delivery orders: what each task execution saw equals the reference merge (nearest path-ordered ancestor wins, own value wins, lists accumulate, no non-ancestor key) of an independent model of what every stage published in its current arming (built from the execution ledger, reset on re-arm; jump tasks that publish extra keys only in abandoned iterations; mixed-type own values); the durable outputs of every finished stage equal that model; every loop body on 3-4 stages and a loop with a side branch depending on the jump target: nothing a stage inherits was produced before the latest run of its producer's own upstream. Reducers: every permutation of 2-3 (4 in thorough) branch outputs over an alphabet with duplicates, falsy and negative values, missing keys, scalars / lists, and end to end through a 3-branch fan under every completion order.",
         design_ref="5 (C16)",
         note=E1_NOTE + " Only path-ordered keys are asserted (the ancestor merge orders unrelated branches by set iteration).",
     ),
@@ -124,7 +124,7 @@ CHECKS = {
         engine="E3 ilv",
         category="model_checking",
         technique="stateless model checking of real threads at SQL-statement / commit granularity under a preemption bound: 2-3 read-modify-write writers through the public store API and engine-level handler pairs",
-        text="Writers: 2 writers (plain, transactional, mixed, with and without retry) with <=2 (quick) / <=3 (thorough) preemptions, 3 writers with <=1/<=2: successful saves read pairwise distinct versions, the final row holds every successful writer's change and nothing of a failed one, version = number of successful saves, retries always converge. Engine pairs: persistent SignalStage vs RunTask that suspends / vs StartStage claim / vs StartTask; two CompleteStage updating one quorum join; CancelStage vs CompleteTask: outcome must be one a sequential order can produce and both effects present.",
+        text="Writers: 2 writers (plain, transactional, mixed, with and without retry) with <=2 (quick) / <=3 (thorough) preemptions, 3 writers with <=1/<=2: successful saves read pairwise distinct versions, the final row holds every successful writer's change and nothing of a failed one, version = number of successful saves, retries always converge. All pairs: at every state of the in-order and the newest-first run of 8 (13 in thorough) workloads, every pair of messages ready together is handed to two workers (<=1 preemption; <=2 on four workloads in thorough): outcome one that a sequential order produces, no task run more often, every stage started at most once per arming, legal transitions. Engine pairs: persistent SignalStage vs RunTask that suspends / vs StartStage claim / vs StartTask; two CompleteStage updating one quorum join; CancelStage vs CompleteTask: outcome must be one a sequential order can produce and both effects present.",
         design_ref="5 (C07)",
         note=E3_NOTE,
     ),
@@ -156,7 +156,7 @@ CHECKS = {
         engine="E1 sched + E2 crash + E3 ilv",
         category="model_checking",
         technique="explicit-state model checking of the real handlers with a persistent or transient signal injected in every reachable state; crash-point enumeration of suspend / resume runs",
-        text="Signal (persistent / transient) sent in every reachable state of A->gate->Z under all delivery orders with <=1 lost ack (quick; <=2 and a recovery sweep in thorough): without a signal the gate is durably SUSPENDED; a persistent signal is consumed exactly once, the suspending task runs suspend-then-resumed with the payload, buffer empty, workflow SUCCEEDED; a transient signal resumes iff the gate was durably SUSPENDED when it was handled; a gate needing 2 / 3 signals with as many distinct persistent signals sent at any moments consumes each exactly once. E2: every commit image of three runs (signal before start / with RunTask / after suspend) x 2 restart orders (no consumed signal may be left in the buffer). E3: persistent SignalStage racing RunTask-that-suspends / StartStage claim / StartTask at statement level, <=2 (quick) / <=3 (thorough) preemptions.",
+        text="Signal (persistent / transient) sent in every reachable state of A->gate->Z under all delivery orders with <=1 lost ack (quick; <=2 and a recovery sweep in thorough): without a signal the gate is durably SUSPENDED; a persistent signal is consumed exactly once, the suspending task runs suspend-then-resumed with the payload, buffer empty, workflow SUCCEEDED; a transient signal resumes iff the gate was durably SUSPENDED when it was handled; a gate needing 2 / 3 signals with as many distinct persistent signals sent at any moments consumes each exactly once; a gate with a second task behind it under a recovery sweep at any moment (nothing runs past the gate unsignalled); a gate reached by a forward jump keeps its buffered signal. E2: every commit image of three runs (signal before start / with RunTask / after suspend) x 2 restart orders (no consumed signal may be left in the buffer). E3: persistent SignalStage racing RunTask-that-suspends / StartStage claim / StartTask at statement level, <=2 (quick) / <=3 (thorough) preemptions.",
         design_ref="5 (C18)",
         note=E1_NOTE,
     ),
@@ -172,7 +172,7 @@ CHECKS = {
         engine="E5 enum",
         category="exploration",
         technique="exhaustive small-scope enumeration of stage graphs against an independent DFS reference, and of grammar-generated / hostile condition expressions under a family of contexts",
-        text="All lists of <=3 stages over refs {a,b,c} (duplicates allowed) with requisites any subset of {a,b,c,zz} (4 stages with <=1 requisite in thorough): Workflow.create accepts exactly the graphs the reference accepts, raises only its own error types, topological_sort lists every stage after its requisites. ~8k expressions covering every supported and unsupported AST node kind to two operator levels plus ~60 malformed / hostile strings x 18 contexts: a value or ExpressionError, never another exception, never a call, never attribute access on a foreign object; _should_skip and _apply_split_logic never raise.",
+        text="All lists of <=3 stages over refs {a,b,c} (duplicates allowed) with requisites any subset of {a,b,c,zz} (4 stages with <=1 requisite in thorough): Workflow.create accepts exactly the graphs the reference accepts, raises only its own error types, topological_sort lists every stage after its requisites. ~8k expressions covering every supported and unsupported AST node kind to two operator levels plus ~90 malformed / hostile strings (incl. every recursive construct nested 990 / 1200 / 5000 deep) x 18 contexts: a value or ExpressionError, never another exception, never a call, never attribute access on a foreign object; _should_skip and _apply_split_logic never raise, and an OR-split decides every branch exactly once, the branch with condition e activated iff e evaluates truthy.",
         design_ref="5 (C20)",
         note="Small-scope hypothesis; CPython 3.12 ast.",
     ),
